@@ -1,3 +1,276 @@
-"""Translator obligations for C02 (placeholder: filled in below)."""
-def obligations(ctx):
-    pass
+"""Translator obligations shared by C02/C03/C04: the coefficient formulas of integration_shared.c,
+the boundary terms / corner guards / coefficient-function wiring of the 15 per-axis kernels and the Python
+coefficient functions of Integration.py are re-read from the CURRENT source and proved equal, for all
+inputs, to the corresponding definitions of the Coq model (ring / field).  Fail closed: a source shape the
+translator does not recognise is a failed obligation."""
+import os, re
+from harness import lib
+from harness.translate import cshared as cexpr, pyexpr
+
+DADI = os.path.join(lib.REPO, 'dadi')
+AX = 'xyzab'
+DIMV = 'LMNOP'
+IDX = ['ii', 'jj', 'kk', 'll', 'mm']
+HDR = '''From Coq Require Import Reals List Lra Lia Arith Bool.
+From Dadi Require Import Base.Num Base.NumR Model.Tridiag Model.Scheme.
+Import ListNotations. Local Open Scope R_scope.
+Ltac nR := unfold nhalf, Scheme.n4 in *; numR_all; unfold n2 in *; numR; try replace (1 + 1) with 2 by lra.
+'''
+
+def read(name):
+    return open(os.path.join(DADI, name)).read()
+
+def shared_function_obligations(ctx, files):
+    try:
+        src = cexpr.strip_comments(read('integration_shared.c'))
+    except OSError as e:
+        ctx.obligation('read integration_shared.c', False, 'translator', str(e)); return
+    body = [HDR]
+    names = []
+    def add(name, stmt, proof):
+        body.append(stmt); body.append('Proof. %s Qed.' % proof); names.append(name)
+    # --- Vfunc, Vfunc_beta, Mfunc1D..5D
+    try:
+        ps, ex = cexpr.return_expr(src, 'Vfunc')
+        if ps != ['x', 'nu']:
+            raise cexpr.Refuse('Vfunc parameters %r' % ps)
+        e, _ = cexpr.translate_expr(ex)
+        body.append('Definition gen_Vfunc (x nu : R) : R := %s.' % e)
+        add('Vfunc', 'Lemma ob_Vfunc : forall x nu, nu <> 0 -> gen_Vfunc x nu = Vfunc nu x.', 'intros. unfold gen_Vfunc, Vfunc. nR. field; auto.')
+        ps, ex = cexpr.return_expr(src, 'Vfunc_beta')
+        if ps != ['x', 'nu', 'beta']:
+            raise cexpr.Refuse('Vfunc_beta parameters %r' % ps)
+        e, _ = cexpr.translate_expr(ex)
+        body.append('Definition gen_Vfunc_beta (x nu beta : R) : R := %s.' % e)
+        add('Vfunc_beta', 'Lemma ob_Vfunc_beta : forall x nu beta, nu <> 0 -> beta <> 0 -> gen_Vfunc_beta x nu beta = Vfunc_beta nu beta x.',
+            'intros. unfold gen_Vfunc_beta, Vfunc_beta. nR. field; auto.')
+        for d in range(1, 6):
+            nm = 'Mfunc%dD' % d
+            ps, ex = cexpr.return_expr(src, nm)
+            if len(ps) != 1 + 2 * (d - 1) + 2 or ps[0] != 'x' or ps[-2:] != ['gamma', 'h']:
+                raise cexpr.Refuse('%s parameters %r' % (nm, ps))
+            others = ps[1:d]; ms = ps[d:2 * d - 1]
+            e, _ = cexpr.translate_expr(ex)
+            body.append('Definition gen_%s %s : R := %s.' % (nm, ' '.join('(%s : R)' % p for p in ps), e))
+            add(nm, 'Lemma ob_%s : forall %s, gen_%s %s = Mfunc [%s] [%s] gamma h x.' % (nm, ' '.join(ps), nm, ' '.join(ps), '; '.join(ms), '; '.join(others)),
+                'intros. unfold gen_%s, Mfunc, Mmig, Msel, nsum. cbn [map combine fold_right fst snd]. nR. ring.' % nm)
+        ctx.obligation('translate Vfunc/Vfunc_beta/Mfunc1D-5D (integration_shared.c)', True, 'translator')
+    except cexpr.Refuse as e:
+        ctx.obligation('translate Vfunc/Vfunc_beta/Mfunc1D-5D (integration_shared.c)', False, 'translator', str(e))
+    # --- loop bodies of compute_dx / compute_dfactor / compute_xInt / compute_delj / compute_abc_nobc
+    try:
+        def stmts(fn):
+            _, b = cexpr.c_function_body(src, fn)
+            b = re.sub(r'for\s*\([^)]*\)', '', b)
+            out = []
+            for s in b.replace('{', ';').replace('}', ';').split(';'):
+                s = ' '.join(s.split())
+                if not s or re.match(r'^(int|double)\b', s) or s.startswith('return') or s.startswith('if') or s.startswith('else'):
+                    if s.startswith('if') or s.startswith('else'):
+                        out.append(s)
+                    continue
+                out.append(s)
+            return out
+        body.append('Section Shared. Variable xs : list R. Variables Vf Mf : R -> R. Variables nu dt : R. Variable c0 c1 use_delj : bool.')
+        body.append('Notation N := (length xs). Notation xx := (x xs). Notation dx := (dx xs). Notation xInt := (xint xs).')
+        body.append('Notation dfactor := (dfactor xs). Notation MInt := (fun i => Mf (xint xs i)). Notation V := (fun i => Vf (x xs i)). Notation VInt := (fun i => Vf (xint xs i)).')
+        body.append('Notation delj := (Scheme.delj xs Vf Mf use_delj).')
+        def tr(e):
+            t, _ = cexpr.translate_expr(e)
+            return t
+        s = stmts('compute_dx')
+        if s != ['dx[ii] = xx[ii+1]-xx[ii]']:
+            raise cexpr.Refuse('compute_dx statements %r' % s)
+        add('dx', 'Lemma ob_dx : forall ii : nat, %s = dx ii.' % tr('xx[ii+1]-xx[ii]'), 'intros. unfold Scheme.dx. replace (ii + 1)%nat with (S ii) by lia. nR. ring.')
+        s = stmts('compute_xInt')
+        if s != ['xInt[ii] = 0.5*(xx[ii+1]+xx[ii])']:
+            raise cexpr.Refuse('compute_xInt statements %r' % s)
+        add('xInt', 'Lemma ob_xInt : forall ii : nat, %s = xInt ii.' % tr('0.5*(xx[ii+1]+xx[ii])'), 'intros. unfold Scheme.xint. replace (ii + 1)%nat with (S ii) by lia. nR. lra.')
+        s = stmts('compute_dfactor')
+        if s != ['dfactor[ii] = 2./(dx[ii] + dx[ii-1])', 'dfactor[0] = 2./dx[0]', 'dfactor[N-1] = 2./dx[N-2]']:
+            raise cexpr.Refuse('compute_dfactor statements %r' % s)
+        add('dfactor_mid', 'Lemma ob_dfactor_mid : forall ii : nat, ii <> 0%%nat -> ii <> (N - 1)%%nat -> %s = dfactor ii.' % tr('2./(dx[ii] + dx[ii-1])'),
+            'intros ii H0 H1. unfold Scheme.dfactor. fold (Scheme.N xs). unfold Scheme.N. destruct (Nat.eqb_spec ii 0); [lia|]. destruct (Nat.eqb_spec ii (N - 1)); [lia|]. nR. reflexivity.')
+        add('dfactor_0', 'Lemma ob_dfactor_0 : %s = dfactor 0%%nat.' % tr('2./dx[0]'), 'unfold Scheme.dfactor. cbn [Nat.eqb]. nR. reflexivity.')
+        add('dfactor_last', 'Lemma ob_dfactor_last : (N - 1 <> 0)%%nat -> %s = dfactor (N - 1)%%nat.' % tr('2./dx[N-2]'),
+            'intros H. unfold Scheme.dfactor. fold (Scheme.N xs). unfold Scheme.N. destruct (Nat.eqb_spec (N - 1) 0); [lia|]. rewrite Nat.eqb_refl. nR. reflexivity.')
+        s = stmts('compute_abc_nobc')
+        exp = ['a[0] = 0', 'c[N-1] = 0', 'b[ii] = 1./dt',
+               'atemp = MInt[ii] * delj[ii] + V[ii]/(2*dx[ii])', 'a[ii+1] = -dfactor[ii+1]*atemp', 'b[ii] += dfactor[ii]*atemp',
+               'ctemp = -MInt[ii] * (1 - delj[ii]) + V[ii+1]/(2*dx[ii])', 'b[ii+1] += dfactor[ii+1]*ctemp', 'c[ii] = -dfactor[ii]*ctemp']
+        lhs = [x.split('=')[0].strip().rstrip('+').strip() for x in s]
+        if lhs != [x.split('=')[0].strip().rstrip('+').strip() for x in exp] or [('+=' in x) for x in s] != [('+=' in x) for x in exp]:
+            raise cexpr.Refuse('compute_abc_nobc statement skeleton %r' % s)
+        rhs = [x.split('=', 1)[1].strip() for x in s]
+        at = tr(rhs[3]); ct = tr(rhs[6])
+        add('atemp', 'Lemma ob_atemp : forall ii : nat, %s = atemp xs Vf Mf use_delj ii.' % at, 'intros. unfold Scheme.atemp. nR. ring.')
+        add('ctemp', 'Lemma ob_ctemp : forall ii : nat, %s = ctemp xs Vf Mf use_delj ii.' % ct,
+            'intros. unfold Scheme.ctemp. replace (ii + 1)%nat with (S ii) by lia. nR. ring.')
+        add('a_next', 'Lemma ob_a_next : forall (ii : nat) (atemp : R), atemp = Scheme.atemp xs Vf Mf use_delj ii -> %s = coef_a xs Vf Mf use_delj (ii + 1).' % tr(rhs[4]),
+            'intros ii atemp ->. unfold coef_a. destruct (Nat.eqb_spec (ii + 1) 0); [lia|]. replace (ii + 1 - 1)%nat with ii by lia. nR. ring.')
+        add('c_cur', 'Lemma ob_c_cur : forall (ii : nat) (ctemp : R), ii <> (N - 1)%%nat -> ctemp = Scheme.ctemp xs Vf Mf use_delj ii -> %s = coef_c xs Vf Mf use_delj ii.' % tr(rhs[8]),
+            'intros ii ctemp Hi ->. unfold coef_c. fold (Scheme.N xs). unfold Scheme.N. destruct (Nat.eqb_spec ii (N - 1)); [lia|]. nR. ring.')
+        # b: 1/dt + (this interval) dfactor ii * atemp ii + (previous interval) dfactor ii * ctemp (ii-1)
+        add('b_sum', ('Lemma ob_b_sum : forall ii : nat, (0 < ii)%%nat -> (ii < N - 1)%%nat -> forall atemp ctemp_prev : R, '
+                      'atemp = Scheme.atemp xs Vf Mf use_delj ii -> ctemp_prev = Scheme.ctemp xs Vf Mf use_delj (ii - 1) -> '
+                      '%s + %s + (let ctemp := ctemp_prev in let ii := (ii - 1)%%nat in %s) = coef_b xs Vf Mf nu c0 c1 dt use_delj ii.') % (tr(rhs[2]), tr(rhs[5]), tr(rhs[7])),
+            ('intros ii H0 H1 atemp ctemp_prev -> ->. unfold coef_b, coef_b0. fold (Scheme.N xs). unfold Scheme.N. '
+             'destruct (Nat.ltb_spec ii (N - 1)); [|lia]. destruct (Nat.ltb_spec 0 ii); [|lia]. destruct (Nat.eqb_spec ii 0); [lia|]. destruct (Nat.eqb_spec ii (N - 1)); [lia|]. '
+             'cbn zeta. replace (ii - 1 + 1)%nat with ii by lia. nR. ring.'))
+        if ' '.join(rhs[0].split()) != '0' or ' '.join(rhs[1].split()) != '0':
+            raise cexpr.Refuse('a[0]/c[N-1] not zero')
+        s = stmts('compute_delj')
+        # expected skeleton
+        exp = ['if(!use_delj_trick)', 'delj[ii] = 0.5', 'wj = 2 * MInt[ii] * dx[ii]', 'epsj = exp(wj/VInt[ii])',
+               'if((epsj != 1.0) && (wj != 0)) delj[ii] = (-epsj*wj + epsj*VInt[ii] - VInt[ii])/(wj - epsj*wj)', 'else delj[ii] = 0.5']
+        norm = lambda x: re.sub(r'\s+', '', x)
+        if [norm(x) for x in s] != [norm(x) for x in exp]:
+            raise cexpr.Refuse('compute_delj statements %r' % s)
+        frm = s[4].split('delj[ii] =', 1)[1].strip()
+        add('delj', ('Lemma ob_delj : forall ii : nat, use_delj = true -> forall wj epsj : R, wj = %s -> epsj = %s -> '
+                     '(if negb (Reqb epsj 1) && negb (Reqb wj 0) then %s else (1/2)) = delj ii.') % (tr('2 * MInt[ii] * dx[ii]'), tr('exp(wj/VInt[ii])'), tr(frm)),
+            'intros ii Hd wj epsj -> ->. unfold Scheme.delj. rewrite Hd. nR. destruct (negb _ && negb _); [unfold Rdiv; ring | lra].')
+        body.append('End Shared.')
+        ctx.obligation('translate compute_dx/dfactor/xInt/delj/abc_nobc (integration_shared.c)', True, 'translator')
+    except cexpr.Refuse as e:
+        ctx.obligation('translate compute_dx/dfactor/xInt/delj/abc_nobc (integration_shared.c)', False, 'translator', str(e))
+        body.append('End Shared.' if any('Section Shared' in b for b in body) and not any(b == 'End Shared.' for b in body) else '')
+    files.append(('C02_ob_shared', '\n'.join(body) + '\n', names))
+
+def kernel_obligations(ctx, files):
+    body = [HDR, 'Section K. Variable xs : list R. Variable Mf : R -> R. Variables Mfirst Mlast : R.',
+            'Notation N := (length xs).']
+    names = []
+    for d in range(1, 6):
+        try:
+            src = cexpr.strip_comments(read('integration%dD.c' % d))
+        except OSError as e:
+            ctx.obligation('read integration%dD.c' % d, False, 'translator', str(e)); continue
+        for k in range(d):
+            fn = 'implicit_%dD%s' % (d, AX[k])
+            try:
+                params, b = cexpr.c_function_body(src, fn)
+                nb = re.sub(r'\s+', '', b)
+                dimv = DIMV[k]; dxn = 'd' + AX[k]; grid = AX[k] * 2
+                nu = 'nu' if d == 1 else 'nu%d' % (k + 1)
+                # --- boundary terms
+                m0 = re.search(r'b\[0\]\+=([^;]*);', nb); m1 = re.search(r'b\[%s-1\]\+=([^;]*);' % dimv, nb)
+                if not m0 or not m1:
+                    raise cexpr.Refuse('boundary lines not found')
+                e0, p0 = cexpr.translate_expr(m0.group(1)); e1, p1 = cexpr.translate_expr(m1.group(1))
+                if sorted(p0.ids) != sorted([nu, 'Mfirst']) or p0.arrays != [dxn] or sorted(p1.ids) != sorted([nu, 'Mlast']) or p1.arrays != [dxn]:
+                    raise cexpr.Refuse('boundary term uses %r %r / %r %r' % (p0.ids, p0.arrays, p1.ids, p1.arrays))
+                e0 = e0.replace(dxn + ' ', 'dx xs ').replace(nu, 'nu_'); e1 = e1.replace(dxn + ' ', 'dx xs ').replace(nu, 'nu_').replace('(%s - 2%%nat)%%nat' % dimv, '(N - 2)%nat')
+                body.append('Lemma ob_%s_bc0 : forall nu_ : R, x xs 0 = x xs 0 -> Mfirst = Mf (x xs 0) -> %s = (nhalf / nu_ - Mf (x xs 0)) * n2 / dx xs 0.' % (fn, e0))
+                body.append('Proof. intros nu_ _ ->. nR. lra. Qed.')
+                body.append('Lemma ob_%s_bc1 : forall nu_ : R, Mlast = Mf (x xs (N - 1)) -> %s = - (- (nhalf / nu_) - Mf (x xs (N - 1))) * n2 / dx xs (N - 2).' % (fn, e1))
+                body.append('Proof. intros nu_ ->. nR. lra. Qed.')
+                names += [fn + '_bc0', fn + '_bc1']
+                # --- guards: every other axis compared with 0 (first) and 1 (last); sign tests on Mfirst / Mlast
+                if d == 1:
+                    g0 = re.search(r'if\(()Mfirst<=0\)b\[0\]', nb)
+                    g1 = re.search(r'if\(()Mlast>=0\)b\[%s-1\]' % dimv, nb)
+                else:
+                    g0 = re.search(r'if\(((?:\(\w+\[\w+\]==0\)&&)*)\(Mfirst<=0\)\)b\[0\]', nb)
+                    g1 = re.search(r'if\(((?:\(\w+\[\w+\]==1\)&&)*)\(Mlast>=0\)\)b\[%s-1\]' % dimv, nb)
+                if not g0 or not g1:
+                    raise cexpr.Refuse('corner guards not recognised')
+                want = sorted('%s[%s]' % (AX[j] * 2, IDX[j]) for j in range(d) if j != k)
+                got0 = sorted(re.findall(r'\((\w+\[\w+\])==0\)', g0.group(1)))
+                got1 = sorted(re.findall(r'\((\w+\[\w+\])==1\)', g1.group(1)))
+                if got0 != want or got1 != want:
+                    raise cexpr.Refuse('corner guards test %r / %r, expected %r' % (got0, got1, want))
+                # --- coefficient-function wiring: Mfunc{d}D(<own grid point>, other coords in axis order, m's in signature order, gamma, h)
+                sig = re.sub(r'\s+', ' ', params)
+                if d == 1:
+                    margs = ['gamma', 'h']; coord_locals = []
+                else:
+                    ms = re.findall(r'double (m\d\d)', sig)
+                    expect_ms = ['m%d%d' % (k + 1, j + 1) for j in range(d) if j != k]
+                    if ms != expect_ms:
+                        raise cexpr.Refuse('signature migration parameters %r, expected %r' % (ms, expect_ms))
+                    coord_locals = []
+                    for j in range(d):
+                        if j == k:
+                            continue
+                        mm = re.search(r'(\w+)=%s\[%s\];' % (AX[j] * 2, IDX[j]), nb)
+                        if not mm:
+                            raise cexpr.Refuse('local coordinate for axis %d not found' % j)
+                        coord_locals.append(mm.group(1))
+                    margs = coord_locals + ms + ['gamma%d' % (k + 1), 'h%d' % (k + 1)]
+                for what, first in (('Mfirst', '%s[0]' % grid), ('Mlast', '%s[%s-1]' % (grid, dimv)), ('MInt[%s]' % IDX[k], '%sInt[%s]' % (AX[k], IDX[k]))):
+                    mm = re.search(re.escape(what) + r'=Mfunc%dD\(([^;]*)\);' % d, nb)
+                    if not mm or mm.group(1).split(',') != [first] + margs:
+                        raise cexpr.Refuse('%s = Mfunc%dD(%s), expected (%s)' % (what, d, mm.group(1) if mm else '?', ','.join([first] + margs)))
+                vf = 'Vfunc_beta' if d == 1 else 'Vfunc'
+                extra = ',beta' if d == 1 else ''
+                if not re.search(r'V\[%s\]=%s\(%s\[%s\],%s%s\);' % (IDX[k], vf, grid, IDX[k], nu, extra), nb) or \
+                   not re.search(r'VInt\[%s\]=%s\(%sInt\[%s\],%s%s\);' % (IDX[k], vf, AX[k], IDX[k], nu, extra), nb):
+                    raise cexpr.Refuse('V / VInt wiring')
+                # --- shared helpers called on this axis' grid with this axis' length
+                for call in ('compute_dx(%s,%s,%s);' % (grid, dimv, dxn), 'compute_dfactor(%s,%s,dfactor);' % (dxn, dimv), 'compute_xInt(%s,%s,%sInt);' % (grid, dimv, AX[k]),
+                             'compute_delj(%s,MInt,VInt,%s,delj,use_delj_trick);' % (dxn, dimv), 'compute_abc_nobc(%s,dfactor,delj,MInt,V,dt,%s,a,b,c);' % (dxn, dimv)):
+                    if call not in nb:
+                        raise cexpr.Refuse('missing call %s' % call)
+                # --- right-hand side and write-back use the same C-order flat index
+                strides = []
+                for j in range(d):
+                    st = '*'.join(DIMV[j + 1:d])
+                    strides.append(IDX[j] + ('*' + st if st else ''))
+                flat = '+'.join(strides)
+                if d == 1:
+                    ok_rhs = 'r[ii]=phi[ii]/dt;' in nb and 'tridiag(a,b,c,r,phi,L);' in nb
+                elif k == d - 1:
+                    # last axis: lines are contiguous, the solver writes straight into &phi[start of line]
+                    base = '+'.join(strides[:-1])
+                    ok_rhs = ('r[%s]=phi[%s]/dt;' % (IDX[k], flat)) in nb and ('tridiag_premalloc(a,b,c,r,&phi[%s],%s);' % (base, dimv)) in nb
+                else:
+                    ok_rhs = ('r[%s]=phi[%s]/dt;' % (IDX[k], flat)) in nb and ('phi[%s]=temp[%s];' % (flat, IDX[k])) in nb and ('tridiag_premalloc(a,b,c,r,temp,%s);' % dimv) in nb
+                if not ok_rhs:
+                    raise cexpr.Refuse('right-hand side / write-back index is not the C-order flat index %s' % flat)
+                ctx.obligation('kernel descriptor %s (boundary terms, corner guards, M/V wiring, helper calls, flat index)' % fn, True, 'translator')
+            except cexpr.Refuse as e:
+                ctx.obligation('kernel descriptor %s (boundary terms, corner guards, M/V wiring, helper calls, flat index)' % fn, False, 'translator', str(e))
+    body.append('End K.')
+    files.append(('C02_ob_kernels', '\n'.join(body) + '\n', names))
+
+def python_obligations(ctx, files):
+    path = os.path.join(DADI, 'Integration.py')
+    body = [HDR]
+    names = []
+    try:
+        t, ps, _ = pyexpr.translate_function(path, '_Vfunc', funcs={})
+        if ps != ['x', 'nu', 'beta']:
+            raise pyexpr.Refuse('_Vfunc parameters %r' % ps)
+        body.append(t)
+        body.append('Lemma ob_py_Vfunc : forall x nu beta, nu <> 0 -> beta <> 0 -> gen__Vfunc x nu beta = Vfunc_beta nu beta x.')
+        body.append('Proof. intros. unfold gen__Vfunc, Vfunc_beta. nR. field; auto. Qed.')
+        names.append('py_Vfunc')
+        for d in (1, 2, 3):
+            nm = '_Mfunc%dD' % d
+            t, ps, _ = pyexpr.translate_function(path, nm, funcs={})
+            if len(ps) != 1 + 2 * (d - 1) + 2 or ps[0] != 'x' or ps[-2:] != ['gamma', 'h']:
+                raise pyexpr.Refuse('%s parameters %r' % (nm, ps))
+            others = ps[1:d]; ms = ps[d:2 * d - 1]
+            body.append(t)
+            body.append('Lemma ob_py%s : forall %s, gen_%s %s = Mfunc [%s] [%s] gamma h x.' % (nm, ' '.join(ps), nm, ' '.join(ps), '; '.join(ms), '; '.join(others)))
+            body.append('Proof. intros. unfold gen_%s, Mfunc, Mmig, Msel, nsum. cbn [map combine fold_right fst snd]. nR. ring. Qed.' % nm)
+            names.append('py' + nm)
+        ctx.obligation('translate _Vfunc/_Mfunc1D-3D (Integration.py)', True, 'translator')
+    except (pyexpr.Refuse, SyntaxError, OSError) as e:
+        ctx.obligation('translate _Vfunc/_Mfunc1D-3D (Integration.py)', False, 'translator', str(e))
+    files.append(('C02_ob_python', '\n'.join(body) + '\n', names))
+
+_CACHE = {}
+
+def obligations(ctx, tag='C02'):
+    files = []
+    shared_function_obligations(ctx, files)
+    kernel_obligations(ctx, files)
+    python_obligations(ctx, files)
+    res = lib.run_case_files([(n.replace('C02', tag), t) for n, t, _ in files], timeout=600)
+    for (n, t, names) in files:
+        rc, so, se, secs = res[n.replace('C02', tag)]
+        ctx.obligation('generated obligations %s: %d lemmas (source formula = model definition, ring/field)' % (n.replace('C02', tag), len(names)), rc == 0, 'translator', se[-600:] if rc else '')
+    ctx.checker_cmds.append('coqc build/cases/%s_ob_{shared,kernels,python}.v (regenerated from dadi/integration*.c, Integration.py)' % tag)
+    ctx.trusted.append('translators harness/translate/cexpr.py, pyexpr.py and the kernel descriptor patterns in harness/props/c02_translate.py (fail-closed)')
